@@ -318,6 +318,10 @@ def timed_view(v, flipped):
             continue
         if who in flipped and k in ("end", "raise"):
             k = "finish"
+        if k in ("sde", "sdc"):
+            # a shutdown handler that ends exactly when shutdown_timeout expires may be seen as ended or as cancelled
+            # (a tie between two timers); C06 speaks of the jobs' runs, results and the verdict, not of this
+            k = "sdfin"
         extra = ()
         if k in ("rret", "rraise"):
             extra = tuple(e[4:5])
